@@ -33,6 +33,18 @@ UPD_OPS = ["$set", "$unset", "$inc", "$push", "$pull", "$addToSet", "$setOnInser
 SEARCH_TEXT_OPS = ["text", "phrase", "autocomplete", "regex", "wildcard"]
 
 
+def remote_value(r):
+    """client addresses as mongod writes them: IPv4, bracketed IPv6 (global, loopback, link-local WITH a zone, IPv4-mapped),
+    unix-socket paths, host names, and odd texts"""
+    k = r.below(12)
+    port = 1024 + r.below(60000)
+    if k < 4:
+        return "10.%d.%d.%d:%d" % (r.below(256), r.below(256), r.below(256), port)
+    return ["[2001:db8::%x]:%d" % (r.below(65536), port), "[::1]:%d" % port, "[fe80::%x%%eth0]:%d" % (r.below(65536), port), "[fe80::1%%25en0]:%d" % port,
+            "[::ffff:10.0.%d.%d]:%d" % (r.below(256), r.below(256), port), "/tmp/mongodb-27017.sock", "anonymous unix socket", "db-host-%d.internal:%d" % (r.below(99), port),
+            "192.168.%d.%d" % (r.below(256), r.below(256)), "zqremote %d \"odd\" text" % r.below(999), "", "300.400.500.600:99999"][k - 4 if k - 4 < 12 else 0]
+
+
 class G:
     """Grammar generator. Every literal it plants is recorded with its role:
        S string literal, E e-mail shaped literal, N number literal, B boolean literal,
@@ -542,7 +554,7 @@ class G:
         comp = component or r.choice(["COMMAND", "COMMAND", "COMMAND", "QUERY", "WRITE"])
         attr = Obj([("type", "command"), ("ns", self.ns), ("appName", "app zqappname"), ])
         if r.chance(1, 3):
-            attr.set("remote", "10.%d.%d.%d:%d" % (r.below(256), r.below(256), r.below(256), 1024 + r.below(60000)))
+            attr.set("remote", remote_value(r))
         if comp == "WRITE" and verb in ("update", "delete"):
             # WRITE lines carry the single statement as attr.command
             st = (cmd.get("updates") or cmd.get("deletes"))[0]
